@@ -10,6 +10,7 @@ Definition plain (v : expr) : Prop := match v with Sexp o _ _ => is_condop o = f
 Definition generic (o : op) (l : expr) : bool :=
   match o, l with
   | OBind, Atom (PName _) => false
+  | OBind, Sexp OBind _ _ => false
   | _, _ => true
   end.
 
@@ -26,6 +27,7 @@ Section Ind.
   Hypothesis H_none : P ENone.
   Hypothesis H_cond : forall x o c v, is_condop o = true -> P c -> P v -> P (Sexp OBind (Atom (PName x)) (Sexp o c v)).
   Hypothesis H_bind : forall x v, plain v -> P v -> P (Sexp OBind (Atom (PName x)) v).
+  Hypothesis H_nest : forall t1 t2 v, P (Sexp OBind t1 t2) -> P v -> P (Sexp OBind (Sexp OBind t1 t2) v).
   Hypothesis H_op : forall o l r, generic o l = true -> P l -> P r -> P (Sexp o l r).
 
   Lemma expr_shape_ind_aux : forall n e, (esize e <= n)%nat -> P e.
@@ -36,7 +38,8 @@ Section Ind.
       cbn [esize] in Hn.
       destruct (generic o l) eqn:G.
       + apply H_op; auto; apply IH; lia.
-      + destruct o; try discriminate G. destruct l as [[b|x|m]| | |]; try discriminate G.
+      + destruct o; try discriminate G. destruct l as [[b|x|m]| |ol l1 l2|]; try discriminate G.
+        2:{ destruct ol; try discriminate G. apply H_nest; apply IH; cbn [esize] in *; lia. }
         destruct r as [p|c|o' c v|].
         * apply H_bind; [exact I|apply H_atom].
         * apply H_bind; [exact I|apply H_cmd].
@@ -60,6 +63,21 @@ Lemma eval_bind_plain cx s x v : plain v ->
   end.
 Proof. destruct v as [p|c|o l r|]; try reflexivity. destruct o; cbn; intros H; try discriminate; reflexivity. Qed.
 
+Lemma eval_nest cx s t1 t2 v :
+  eval cx s (Sexp OBind (Sexp OBind t1 t2) v) =
+  match eval cx s (Sexp OBind t1 t2) with
+  | Fault z s1 => Fault z s1
+  | Val s1 _ =>
+    match eval cx s1 v with
+    | Fault z s2 => Fault z s2
+    | Val s2 vv => match bind_target (Sexp OBind t1 t2) with
+                   | Some x => Val (assign cx s2 x vv) vv
+                   | None => Val s2 vv
+                   end
+    end
+  end.
+Proof. reflexivity. Qed.
+
 Lemma eval_op cx s o l r : generic o l = true ->
   eval cx s (Sexp o l r) =
   match eval cx s l with
@@ -72,7 +90,8 @@ Lemma eval_op cx s o l r : generic o l = true ->
   end.
 Proof.
   intros G. destruct o; try reflexivity.
-  destruct l as [[b|x|m]| | |]; try reflexivity. discriminate G.
+  destruct l as [[b|x|m]| |ol l1 l2|]; try reflexivity; [discriminate G|].
+  destruct ol; try reflexivity. discriminate G.
 Qed.
 
 (* ---------- typing, by shape ---------- *)
@@ -139,7 +158,7 @@ Proof.
                  | None => None
                  end
                else None) = Some (t, g')).
-  { destruct o; try exact H. destruct l as [[b|x|m]| | |]; try exact H. discriminate G. }
+  { destruct o; try exact H. destruct l as [[b|x|m]| |ol l1 l2|]; try exact H; [discriminate G|]. destruct ol; try exact H. discriminate G. }
   clear H. destruct (is_valop o); try discriminate H'. split; [reflexivity|].
   destruct (ty_expr g l) as [[tl g1]|] eqn:E1; try discriminate H'.
   destruct (ty_expr g1 r) as [[tr g2]|] eqn:E2; try discriminate H'.
@@ -149,11 +168,35 @@ Proof.
   subst. exists tl, g1, tr. split; [reflexivity|exact E2].
 Qed.
 
+Lemma ty_nest_inv g t1 t2 v t g' :
+  ty_expr g (Sexp OBind (Sexp OBind t1 t2) v) = Some (t, g') ->
+  plain v /\ exists g1, ty_expr g (Sexp OBind t1 t2) = Some (t, g1) /\ ty_expr g1 v = Some (t, g').
+Proof.
+  intros H.
+  assert (Pl : plain v).
+  { destruct v as [p|c|o l r|]; try exact I. cbn. destruct o; try reflexivity; cbn [ty_expr] in H; discriminate H. }
+  split; [exact Pl|].
+  assert (H' : match ty_expr g (Sexp OBind t1 t2) with
+               | Some (ty1, g1) =>
+                 match ty_expr g1 v with
+                 | Some (tv, g2) => if vty_eqb ty1 tv then Some (tv, g2) else None
+                 | None => None
+                 end
+               | None => None
+               end = Some (t, g')).
+  { destruct v as [p|c|o l r|]; try exact H. destruct o; try discriminate Pl; exact H. }
+  clear H. destruct (ty_expr g (Sexp OBind t1 t2)) as [[ty1 g1]|] eqn:E1; [|discriminate H'].
+  destruct (ty_expr g1 v) as [[tv g2]|] eqn:E2; [|discriminate H'].
+  destruct (vty_eqb ty1 tv) eqn:Ev; [|discriminate H']. inversion H'; subst.
+  assert (ty1 = t) by (destruct ty1, t; try discriminate Ev; reflexivity). subst ty1.
+  exists g1. split; [reflexivity|exact E2].
+Qed.
+
 (* typing only ever adds names that were not there *)
 Lemma ty_expr_mono e : forall g t g', ty_expr g e = Some (t, g') ->
   forall y, tget g y <> None -> tget g' y = tget g y.
 Proof.
-  induction e as [p|c| |x o c v Co IHc IHv|x v Pl IHv|o l r G IHl IHr] using expr_shape_ind; intros g t g' H y Hy.
+  induction e as [p|c| |x o c v Co IHc IHv|x v Pl IHv|t1 t2 v IHt IHv|o l r G IHl IHr] using expr_shape_ind; intros g t g' H y Hy.
   - destruct p as [b|x|n]; cbn in H.
     + inversion H; reflexivity.
     + destruct (tget g x) as [[? ?]|]; inversion H; reflexivity.
@@ -167,6 +210,8 @@ Proof.
     + cbn [tget]. destruct (name_eqb x y) eqn:E.
       * apply name_eqb_eq in E. subst y. rewrite (IHv _ _ _ H1 x Hy) in Hn. contradiction.
       * apply (IHv _ _ _ H1 y Hy).
+  - apply ty_nest_inv in H. destruct H as (_ & g1 & H1 & H2).
+    rewrite (IHv _ _ _ H2 y); [apply (IHt _ _ _ H1 y Hy)|]. rewrite (IHt _ _ _ H1 y Hy). exact Hy.
   - apply ty_op_inv in H; auto. destruct H as (_ & tl & g1 & tr & H1 & H2).
     rewrite (IHr _ _ _ H2 y); [apply (IHl _ _ _ H1 y Hy)|]. rewrite (IHl _ _ _ H1 y Hy). exact Hy.
 Qed.
@@ -206,8 +251,28 @@ Proof. reflexivity. Qed.
 
 Lemma assigns_op o l r y : generic o l = true -> assigns (Sexp o l r) y = assigns l y || assigns r y.
 Proof.
-  intros G. destruct o; try reflexivity. destruct l as [[b|x|m]| | |]; try reflexivity. discriminate G.
+  intros G. destruct o; try reflexivity. destruct l as [[b|x|m]| |ol l1 l2|]; try reflexivity; try discriminate G.
+  all: try (destruct ol; try reflexivity; discriminate G).
 Qed.
+
+Lemma assigns_nest t1 t2 v y : assigns (Sexp OBind (Sexp OBind t1 t2) v) y = assigns (Sexp OBind t1 t2) y || assigns v y.
+Proof. reflexivity. Qed.
+
+Lemma bind_target_assigns t : forall x y, bind_target t = Some x -> assigns t y = false -> x <> y.
+Proof.
+  induction t as [p|c|o l IHl r IHr|]; intros x y Hb Ha; try discriminate Hb.
+  destruct o; try discriminate Hb. destruct l as [[b|z|m]| |ol l1 l2|]; try discriminate Hb.
+  - cbn [bind_target] in Hb. inversion Hb; subst z. cbn [assigns] in Ha. apply orb_false_iff in Ha. destruct Ha as [Ha _].
+    intros ->. rewrite name_eqb_refl in Ha. discriminate Ha.
+  - destruct ol; try discriminate Hb. cbn [bind_target] in Hb. fold bind_target in Hb.
+    change (assigns (Sexp OBind (Sexp OBind l1 l2) r) y) with (assigns (Sexp OBind l1 l2) y || assigns r y) in Ha.
+    apply orb_false_iff in Ha. destruct Ha as [Ha _]. eapply IHl; eauto.
+Qed.
+
+Lemma clobbers_nest t1 t2 v :
+  clobbers (Sexp OBind (Sexp OBind t1 t2) v) =
+  match direct_var (Sexp OBind t1 t2) with Some y => assigns v y | None => false end || clobbers (Sexp OBind t1 t2) || clobbers v.
+Proof. reflexivity. Qed.
 
 Lemma clobbers_cond x o c v : is_condop o = true ->
   clobbers (Sexp OBind (Atom (PName x)) (Sexp o c v)) =
@@ -223,7 +288,8 @@ Qed.
 Lemma clobbers_op o l r : generic o l = true ->
   clobbers (Sexp o l r) = match direct_var l with Some y => assigns r y | None => false end || clobbers l || clobbers r.
 Proof.
-  intros G. destruct o; try reflexivity. destruct l as [[b|x|m]| | |]; try reflexivity. discriminate G.
+  intros G. destruct o; try reflexivity. destruct l as [[b|x|m]| |ol l1 l2|]; try reflexivity; try discriminate G.
+  all: try (destruct ol; try reflexivity; discriminate G).
 Qed.
 
 (* ---------- the frame property of the source semantics ---------- *)
@@ -233,7 +299,7 @@ Definition res_state (r : res) : sstate := match r with Val s _ => s | Fault _ s
 Lemma eval_frame cx e : forall g t g' s y, ty_expr g e = Some (t, g') -> assigns e y = false ->
   env_get (s_env (res_state (eval cx s e))) y = env_get (s_env s) y.
 Proof.
-  induction e as [p|c| |x o c v Co IHc IHv|x v Pl IHv|o l r G IHl IHr] using expr_shape_ind; intros g t g' s y Ht Ha.
+  induction e as [p|c| |x o c v Co IHc IHv|x v Pl IHv|t1 t2 v IHt IHv|o l r G IHl IHr] using expr_shape_ind; intros g t g' s y Ht Ha.
   - destruct p as [b|x|n]; cbn [eval]; try reflexivity. destruct (primitive_index x); reflexivity.
   - discriminate Ht.
   - discriminate Ht.
@@ -262,6 +328,15 @@ Proof.
     specialize (IHv _ _ _ s y H1 Hv).
     destruct (eval cx s v) as [s1 vv|z s1]; cbn [res_state] in *; [|exact IHv].
     rewrite assign_get_other by assumption. exact IHv.
+  - apply ty_nest_inv in Ht. destruct Ht as (_ & g1 & H1 & H2).
+    rewrite assigns_nest in Ha. apply orb_false_iff in Ha. destruct Ha as [Hl Hr].
+    rewrite eval_nest.
+    specialize (IHt _ _ _ s y H1 Hl).
+    destruct (eval cx s (Sexp OBind t1 t2)) as [s1 a|z s1]; cbn [res_state] in *; [|exact IHt].
+    specialize (IHv _ _ _ s1 y H2 Hr).
+    destruct (eval cx s1 v) as [s2 b|z s2]; cbn [res_state] in *; [|congruence].
+    destruct (bind_target (Sexp OBind t1 t2)) as [x|] eqn:Eb; cbn [res_state]; [|congruence].
+    rewrite assign_get_other; [congruence|]. eapply bind_target_assigns; eauto.
   - apply ty_op_inv in Ht; auto. destruct Ht as (_ & tl & g1 & tr & H1 & H2).
     rewrite assigns_op in Ha by assumption. apply orb_false_iff in Ha. destruct Ha as [Hl Hr].
     rewrite eval_op by assumption.
